@@ -14,6 +14,7 @@
 package main
 
 import (
+	"archive/tar"
 	"bufio"
 	"bytes"
 	"context"
@@ -49,15 +50,68 @@ const CS = 262144
 
 // ---------------------------------------------------------------- catalogue
 
+// member: one file entry of a manifest (a single-file upload has one, a directory upload several)
+type member struct {
+	Path    string
+	Content []byte
+	FileRef boson.Address // reference of the file entry inside the manifest
+}
+
 type fileDef struct {
 	Name    string
-	Blocks  string // letters of the catalogue blocks
-	Content []byte
+	Blocks  string // letters of the catalogue blocks; '|' separates the member files of a directory
+	Dir     bool   // uploaded as a directory (POST /aurora with a tar, Aurora-Collection: true)
+	Members []member
+	Content []byte // content of the first member
 	Ref     boson.Address
 	Chunks  []string // names of all chunks written for it (W(f))
 	Data    []string // distinct data chunks, order of first occurrence (availability bit order)
 	Occ     map[string]int
-	FileRef boson.Address // reference of the file entry inside the manifest
+	FileRef boson.Address // reference of the first member's file entry inside the manifest
+}
+
+// mem returns the member a selector names ("m2" = second member; everything else the first)
+func (fd *fileDef) mem(sel string) *member {
+	if sel == "m2" && len(fd.Members) >= 2 {
+		return &fd.Members[1]
+	}
+	return &fd.Members[0]
+}
+
+// upload stores a catalogue file on node n through the API: POST /aurora?name= for a single file,
+// POST /aurora with a tar of the members (Aurora-Collection) for a directory.
+func upload(n *nodelite.Node, fd *fileDef, pin bool) (boson.Address, int, error) {
+	if !fd.Dir {
+		return n.Upload(fd.Members[0].Path, fd.Members[0].Content, pin, false)
+	}
+	var buf bytes.Buffer
+	tw := tar.NewWriter(&buf)
+	for _, m := range fd.Members {
+		if err := tw.WriteHeader(&tar.Header{Name: m.Path, Mode: 0600, Size: int64(len(m.Content))}); err != nil {
+			return boson.ZeroAddress, 0, err
+		}
+		if _, err := tw.Write(m.Content); err != nil {
+			return boson.ZeroAddress, 0, err
+		}
+	}
+	if err := tw.Close(); err != nil {
+		return boson.ZeroAddress, 0, err
+	}
+	hdr := map[string]string{"Content-Type": "application/x-tar", "Aurora-Collection": "true"}
+	if pin {
+		hdr["Aurora-Pin"] = "true"
+	}
+	code, body := n.Do(http.MethodPost, "/aurora", hdr, buf.Bytes())
+	if code != http.StatusCreated {
+		return boson.ZeroAddress, code, fmt.Errorf("upload dir: status %d: %s", code, body)
+	}
+	var r struct {
+		Reference boson.Address `json:"reference"`
+	}
+	if err := json.Unmarshal(body, &r); err != nil {
+		return boson.ZeroAddress, code, err
+	}
+	return r.Reference, code, nil
 }
 
 type catalogue struct {
@@ -76,7 +130,10 @@ func block(letter byte, seed int64) []byte {
 	return b
 }
 
-var fileBlocks = [][2]string{{"F1", "XY"}, {"F2", "XYZ"}, {"F3", "XY"}, {"F4", "ZZ"}, {"F5", "Y"}, {"F6", "XT"}, {"F7", "ZT"}}
+// F*: single-file manifests. D*: directories (two member files a.bin, b.bin under one manifest root); every directory
+// holds the one-chunk file T as its second member, D1's first member is the content of F1, D2's / D3's a one-chunk file.
+var fileBlocks = [][2]string{{"F1", "XY"}, {"F2", "XYZ"}, {"F3", "XY"}, {"F4", "ZZ"}, {"F5", "Y"}, {"F6", "XT"}, {"F7", "ZT"},
+	{"D1", "XY|T"}, {"D2", "Z|T"}, {"D3", "Y|T"}}
 
 func addrRand(r *rand.Rand) boson.Address {
 	b := make([]byte, 32)
@@ -86,21 +143,35 @@ func addrRand(r *rand.Rand) boson.Address {
 
 // buildCatalogue uploads every catalogue file alone into a fresh scratch node to learn the
 // set of chunks written for it, and names the chunks.
-func buildCatalogue(logger logging.Logger, seed int64) (*catalogue, error) {
+// need (nil = all): the files the scenarios of this process name; the others are left out (building one costs ~1 s of CPU).
+func buildCatalogue(logger logging.Logger, seed int64, need map[string]bool) (*catalogue, error) {
 	cat := &catalogue{files: map[string]*fileDef{}, names: map[string]string{}}
 	blockOf := map[string]string{}
 	rng := rand.New(rand.NewSource(seed + 99))
 	for _, fb := range fileBlocks {
-		fd := &fileDef{Name: fb[0], Blocks: fb[1], Occ: map[string]int{}}
-		for i := 0; i < len(fb[1]); i++ {
-			fd.Content = append(fd.Content, block(fb[1][i], seed)...)
+		if need != nil && !need[fb[0]] {
+			continue
 		}
+		fd := &fileDef{Name: fb[0], Blocks: fb[1], Occ: map[string]int{}}
+		parts := strings.Split(fb[1], "|")
+		fd.Dir = len(parts) > 1
+		for k, part := range parts {
+			m := member{Path: strings.ToLower(fd.Name)}
+			if fd.Dir {
+				m.Path = string(rune('a'+k)) + ".bin"
+			}
+			for i := 0; i < len(part); i++ {
+				m.Content = append(m.Content, block(part[i], seed)...)
+			}
+			fd.Members = append(fd.Members, m)
+		}
+		fd.Content = fd.Members[0].Content
 		board := swb.NewBoard()
 		n, err := nodelite.New(board, addrRand(rng), "", nil, logger)
 		if err != nil {
 			return nil, err
 		}
-		ref, _, err := n.Upload(strings.ToLower(fd.Name), fd.Content, false, false)
+		ref, _, err := upload(n, fd, false)
 		if err != nil {
 			n.Close()
 			return nil, err
@@ -147,12 +218,17 @@ func buildCatalogue(logger logging.Logger, seed int64) (*catalogue, error) {
 			n.Close()
 			return nil, err
 		}
-		e, err := m.Lookup(context.Background(), strings.ToLower(fd.Name))
-		if err != nil {
-			n.Close()
-			return nil, err
+		fileRefs := map[string]bool{}
+		for k := range fd.Members {
+			e, err := m.Lookup(context.Background(), fd.Members[k].Path)
+			if err != nil {
+				n.Close()
+				return nil, err
+			}
+			fd.Members[k].FileRef = e.Reference()
+			fileRefs[hex.EncodeToString(e.Reference().Bytes())] = true
 		}
-		fd.FileRef = e.Reference()
+		fd.FileRef = fd.Members[0].FileRef
 		var others []string
 		for _, e := range st.Retrieval {
 			h := hex.EncodeToString(e.Address)
@@ -171,6 +247,8 @@ func buildCatalogue(logger logging.Logger, seed int64) (*catalogue, error) {
 				cat.names[h] = "M:" + fd.Name
 			case h == hex.EncodeToString(fd.FileRef.Bytes()):
 				cat.names[h] = "r:" + fd.Name
+			case fileRefs[h]:
+				cat.names[h] = "r:" + fd.Name + ":b"
 			default:
 				cat.names[h] = fmt.Sprintf("m:%s:%d", fd.Name, mi)
 				mi++
@@ -242,19 +320,21 @@ func localRead(b *nodelite.Node, fd *fileDef) bool {
 	if err != nil {
 		return false
 	}
-	e, err := m.Lookup(ctx, strings.ToLower(fd.Name))
-	if err != nil {
-		return false
+	for _, mb := range fd.Members {
+		e, err := m.Lookup(ctx, mb.Path)
+		if err != nil {
+			return false
+		}
+		j, _, err := joiner.New(ctx, b.Store, storage.ModeGetLookup, e.Reference())
+		if err != nil {
+			return false
+		}
+		got, err := ioutil.ReadAll(j)
+		if err != nil || !bytes.Equal(got, mb.Content) {
+			return false
+		}
 	}
-	j, _, err := joiner.New(ctx, b.Store, storage.ModeGetLookup, e.Reference())
-	if err != nil {
-		return false
-	}
-	got, err := ioutil.ReadAll(j)
-	if err != nil {
-		return false
-	}
-	return bytes.Equal(got, fd.Content)
+	return true
 }
 
 func project(b *nodelite.Node, cat *catalogue, files []string) (kit.Ev, error) {
@@ -377,6 +457,11 @@ func (r *runner) run(sc kit.Scenario, rng *rand.Rand) (evs []kit.Ev, err error) 
 		return nil, err
 	}
 	defer b.Close()
+	// release: parks the store's own collection worker (see the racing download of the gc operation); it is let go
+	// after the last dump, before the node is closed
+	release := make(chan struct{})
+	workerParked := false
+	defer close(release)
 
 	defs := map[string]interface{}{}
 	for _, f := range files {
@@ -411,7 +496,9 @@ func (r *runner) run(sc kit.Scenario, rng *rand.Rand) (evs []kit.Ev, err error) 
 		return nil
 	}
 
+	defer srcHide.Delete(b.Addr.String())
 	for _, op := range sc.Ops {
+		srcHide.Delete(b.Addr.String())
 		name := kit.Str(op, "op")
 		ev := kit.Ev{"op": name}
 		var fd *fileDef
@@ -425,7 +512,7 @@ func (r *runner) run(sc kit.Scenario, rng *rand.Rand) (evs []kit.Ev, err error) 
 		switch name {
 		case "upload":
 			pin := kit.Bool(op, "pin")
-			ref, code, uerr := b.Upload(strings.ToLower(fd.Name), fd.Content, pin, false)
+			ref, code, uerr := upload(b, fd, pin)
 			ev["pin"], ev["code"] = pin, code
 			ev["ok"] = uerr == nil && ref.Equal(fd.Ref)
 		case "download", "read":
@@ -433,22 +520,29 @@ func (r *runner) run(sc kit.Scenario, rng *rand.Rand) (evs []kit.Ev, err error) 
 			if sel == "" {
 				sel = "all"
 			}
+			// a directory is read one member file at a time (GET /aurora/{ref}/{path}): sel "m1" / "m2"; the byte-range
+			// selectors and "all" name the single file of a single-file manifest (its index document: empty path)
+			mb := fd.mem(sel)
+			content := mb.Content
 			hdr := map[string]string{}
-			lo, hi := 0, len(fd.Content)-1
+			lo, hi := 0, len(content)-1
 			switch sel {
 			case "first":
 				lo, hi = 0, 9
 			case "second":
-				if len(fd.Content) > CS+10 {
+				if len(content) > CS+10 {
 					lo, hi = CS, CS+9
 				} else {
 					lo, hi = 0, 9
 				}
 			}
-			if sel != "all" {
+			if sel == "first" || sel == "second" {
 				hdr["Range"] = fmt.Sprintf("bytes=%d-%d", lo, hi)
 			}
 			url := "/aurora/" + fd.Ref.String() + "/"
+			if fd.Dir {
+				url += mb.Path
+			}
 			if name == "download" {
 				url += "?targets=" + r.src.Addr.String()
 			}
@@ -462,21 +556,20 @@ func (r *runner) run(sc kit.Scenario, rng *rand.Rand) (evs []kit.Ev, err error) 
 				}
 				ev["miss"], ev["missc"] = miss, cname
 				if maddr, ok := r.cat.addrOf(cname); ok {
-					srcHide.Store(maddr.String())
+					srcHide.Store(b.Addr.String(), maddr.String())
 					hidden = true
 				}
 			}
 			code, body := b.Do(http.MethodGet, url, hdr, nil)
 			if hidden {
-				// the chunk stays absent at the source until the node is quiet (retries of the retrieval loop must not find it)
-				r.board.WaitHandlers(20 * time.Second)
-				time.Sleep(50 * time.Millisecond)
-				r.board.WaitHandlers(20 * time.Second)
+				// the chunk stays absent at the source for this node until its next operation starts (late retries of the
+				// retrieval loop must not find it). (Board.WaitHandlers is not used: its WaitGroup is shared by the scenarios
+				// of all goroutines, a Wait that overlaps their new streams panics.)
+				time.Sleep(150 * time.Millisecond)
 				b.Settle()
-				srcHide.Store("")
 			}
 			ev["sel"], ev["code"] = sel, code
-			ev["ok"] = (code == 200 || code == 206) && bytes.Equal(body, fd.Content[lo:hi+1])
+			ev["ok"] = (code == 200 || code == 206) && bytes.Equal(body, content[lo:hi+1])
 		case "pin":
 			code, _ := b.Do(http.MethodPost, "/pins/"+fd.Ref.String(), nil, nil)
 			ev["code"] = code
@@ -528,6 +621,8 @@ func (r *runner) run(sc kit.Scenario, rng *rand.Rand) (evs []kit.Ev, err error) 
 			done := false
 			var gerr error
 			race, isRace := op["race"].(map[string]interface{})
+			raceCode := 0
+			var raceErr error
 			if isRace {
 				gcMu.Lock()
 			} else {
@@ -538,17 +633,42 @@ func (r *runner) run(sc kit.Scenario, rng *rand.Rand) (evs []kit.Ev, err error) 
 				// (the hook is package-global: a racing collection excludes every other collection)
 				rf := r.cat.files[kit.Str(race, "f")]
 				fired := false
+				var inRace int32
+				parked := make(chan struct{}, 1)
 				localstore.VerifSetGCIteratorDoneHook(func() {
+					if atomic.LoadInt32(&inRace) == 1 {
+						// The driver's goroutine is inside this hook performing the racing operation, so this call comes from the
+						// store's own collection worker: a put that reaches the capacity wakes it. In the node the worker IS the
+						// running collection and the wake-up only queues its next run; here the run is on the driver's goroutine,
+						// so the worker is parked at this point (a second, concurrent run does not exist in the node) until the
+						// scenario is over.
+						select {
+						case parked <- struct{}{}:
+						default:
+						}
+						<-release
+						return
+					}
 					if fired || rf == nil {
 						return
 					}
 					fired = true
+					before, e0 := b.Store.VerifDump()
+					atomic.StoreInt32(&inRace, 1)
 					switch kit.Str(race, "op") {
+					case "download":
+						// the complete download of another file: its request puts commit between candidate selection and the
+						// release of the evicted entries
+						code, _ := b.Do(http.MethodGet, "/aurora/"+rf.Ref.String()+"/?targets="+r.src.Addr.String(), nil, nil)
+						raceCode = code
 					case "read":
 						b.Do(http.MethodGet, "/aurora/"+rf.Ref.String()+"/", nil, nil)
 					case "touch":
+						// (a locally present chunk only, as in the touch operation: a miss would go to the network and put)
 						if addr, ok := r.cat.addrOf(rf.Data[0]); ok {
-							_, _ = b.NS.Get(sctx.SetRootHash(context.Background(), rf.Ref), storage.ModeGetRequest, addr)
+							if has, _ := b.Store.Has(context.Background(), storage.ModeHasChunk, addr); has {
+								_, _ = b.NS.Get(sctx.SetRootHash(context.Background(), rf.Ref), storage.ModeGetRequest, addr)
+							}
 						}
 					case "pin":
 						b.Do(http.MethodPost, "/pins/"+rf.Ref.String(), nil, nil)
@@ -556,6 +676,16 @@ func (r *runner) run(sc kit.Scenario, rng *rand.Rand) (evs []kit.Ev, err error) 
 						b.Do(http.MethodDelete, "/aurora/"+rf.Ref.String(), nil, nil)
 					}
 					b.Store.VerifWaitUpdateGC()
+					if st, e := b.Store.VerifDump(); e0 == nil && e == nil && st.GCSize != before.GCSize && st.GCSize >= uint64(capn) && !workerParked {
+						// the counter changed and ended at the capacity or beyond: the last change woke the worker, which arrives here
+						select {
+						case <-parked:
+							workerParked = true
+						case <-time.After(60 * time.Second):
+							raceErr = fmt.Errorf("gc race: the collection worker did not arrive at the hook")
+						}
+					}
+					atomic.StoreInt32(&inRace, 0)
 				})
 				ev["race"] = map[string]interface{}{"op": kit.Str(race, "op"), "f": kit.Str(race, "f")}
 			}
@@ -570,10 +700,19 @@ func (r *runner) run(sc kit.Scenario, rng *rand.Rand) (evs []kit.Ev, err error) 
 			if isRace {
 				localstore.VerifSetGCIteratorDoneHook(nil)
 				gcMu.Unlock()
+				if raceCode != 0 {
+					ev["racecode"] = raceCode
+				}
+				if raceErr != nil {
+					return nil, raceErr
+				}
 			} else {
 				gcMu.RUnlock()
 			}
 		case "restart":
+			if workerParked {
+				return nil, fmt.Errorf("restart after a collection raced by a download: not supported (the store's worker is parked)")
+			}
 			if e := b.Restart(); e != nil {
 				return nil, fmt.Errorf("restart: %w", e)
 			}
@@ -670,19 +809,52 @@ func runChunks(scs []kit.Scenario, out *kit.Out) error {
 	return nil
 }
 
-// srcHide names one chunk address the source node's retrieval handler does not find (a partial holder); "" = none.
-var srcHide atomic.Value
+// srcHide: requester overlay -> one chunk address the source node's retrieval handler does not find for that requester
+// (the source is a partial holder for one downloading node; the scenarios of the other goroutines are not affected).
+// The requester is read from the handler's context: retrieval stores the peer address there under an unexported key,
+// and a value context prints its string values.
+var srcHide sync.Map
 
 type hideStorer struct{ storage.Storer }
 
 func (h *hideStorer) Get(ctx context.Context, mode storage.ModeGet, addr boson.Address) (boson.Chunk, error) {
-	if v, _ := srcHide.Load().(string); v != "" && v == addr.String() {
+	a, cs, hit := addr.String(), "", false
+	srcHide.Range(func(k, v interface{}) bool {
+		if v.(string) == a {
+			if cs == "" {
+				cs = fmt.Sprint(ctx)
+			}
+			if strings.Contains(cs, k.(string)) {
+				hit = true
+				return false
+			}
+		}
+		return true
+	})
+	if hit {
 		return nil, storage.ErrNotFound
 	}
 	return h.Storer.Get(ctx, mode, addr)
 }
 
 func main() {
+	if len(os.Args) >= 2 && os.Args[1] == "catalogue" {
+		// prints the chunk structure of the catalogue (what NodeGen.tla's CatData / CatOther / CatSplit transcribe)
+		cat, err := buildCatalogue(logging.New(ioutil.Discard, 0), kit.Seed(), nil)
+		if err != nil {
+			fmt.Fprintln(os.Stderr, err)
+			os.Exit(2)
+		}
+		for _, f := range cat.order {
+			fd := cat.files[f]
+			refs := []string{}
+			for _, m := range fd.Members {
+				refs = append(refs, m.Path+"="+cat.name(m.FileRef.Bytes()))
+			}
+			fmt.Printf("%s blocks=%s data=%v chunks=%v members=%v occ=%v\n", f, fd.Blocks, fd.Data, fd.Chunks, refs, fd.Occ)
+		}
+		return
+	}
 	if len(os.Args) >= 2 && os.Args[1] == "exec" {
 		kit.Main(runChunks)
 		return
@@ -694,7 +866,18 @@ func main() {
 		logger := logging.New(ioutil.Discard, 0)
 		localstore.VerifSetNow(func() int64 { return atomic.AddInt64(&clock, 1) })
 		seed := kit.Seed()
-		cat, err := buildCatalogue(logger, seed)
+		need := map[string]bool{}
+		for _, sc := range scs {
+			fs := kit.StrList(sc.Par, "files")
+			if len(fs) == 0 {
+				need = nil
+				break
+			}
+			for _, f := range fs {
+				need[f] = true
+			}
+		}
+		cat, err := buildCatalogue(logger, seed, need)
 		if err != nil {
 			return fmt.Errorf("catalogue: %w", err)
 		}
@@ -706,7 +889,7 @@ func main() {
 		}
 		for _, f := range cat.order {
 			fd := cat.files[f]
-			ref, _, err := src.Upload(strings.ToLower(fd.Name), fd.Content, false, false)
+			ref, _, err := upload(src, fd, false)
 			if err != nil || !ref.Equal(fd.Ref) {
 				return fmt.Errorf("source upload %s: %v", f, err)
 			}
